@@ -430,10 +430,55 @@ func (c *svcDiscoveryClient) loopSend(stream svcDiscoveryStream, stop <-chan str
 		}
 
 	SEND:
+		subscribed, unsubscribed = c.settleBatch(subscribed, unsubscribed)
 		err := stream.Send(subscribed, unsubscribed)
 		if err != nil {
 			logger.Warnf("Send to service %s discovery stream failed: %v", c.scope, err)
 			return
 		}
 	}
+}
+
+// settleBatch resolves a batch that names a service in both lists. The two
+// queues do not tell whether the subscribe or the unsubscribe came last, and
+// the request cannot express an order either, so such a service is kept only
+// in the list that agrees with the subscribed set. Changes made after this
+// look-up have their own queue entries and go out with a later request.
+func (c *svcDiscoveryClient) settleBatch(subscribed, unsubscribed []string) ([]string, []string) {
+	var both map[string]bool
+	for _, s := range subscribed {
+		for _, u := range unsubscribed {
+			if s == u {
+				if both == nil {
+					both = make(map[string]bool)
+				}
+				both[s] = false
+			}
+		}
+	}
+	if both == nil {
+		return subscribed, unsubscribed
+	}
+
+	c.RLock()
+	for svcName := range both {
+		_, both[svcName] = c.subscribed[svcName]
+	}
+	c.RUnlock()
+
+	keptSub := subscribed[:0]
+	for _, s := range subscribed {
+		if wanted, ok := both[s]; ok && !wanted {
+			continue
+		}
+		keptSub = append(keptSub, s)
+	}
+	keptUnsub := unsubscribed[:0]
+	for _, u := range unsubscribed {
+		if wanted, ok := both[u]; ok && wanted {
+			continue
+		}
+		keptUnsub = append(keptUnsub, u)
+	}
+	return keptSub, keptUnsub
 }
